@@ -2,5 +2,5 @@
 # usage: tools/seeded_run.sh <seeded-dir-name>...   runs each seeded patch against its property's quick check
 for d in "$@"; do
   prop="${d%%-*}"
-  /verif/tools/mutant.sh "/verif/seeded/$d/patch.diff" "$prop" 2>&1 | sed "s/^patch /$d /"
+  "${VERIF_HOME:-/verif}/tools/mutant.sh" "${VERIF_HOME:-/verif}/seeded/$d/patch.diff" "$prop" 2>&1 | sed "s/^patch /$d /"
 done
